@@ -123,6 +123,27 @@ def neighbour_count(ow, cut2, B, species):
     return max(per.values()) if per else 0, sum(per.values())
 
 
+def far_cut(ow, factor):
+    """(shell index, 2, cut2, B) for a cutoff of about `factor` times the shortest lattice vector, midway between
+    two consecutive exact shells."""
+    amin2 = min(ow["M"][i][i] for i in range(ow["dim"])) * ow["D"] ** 2        # grid units
+    target = int(factor * factor * amin2)
+    B = box_for(ow, 3 * target)                                              # covers squared distances <= 1.5 target
+    vals = sorted(set(pair_values(ow, B).values()))
+    below = [v for v in vals if v <= target]
+    above = [v for v in vals if v > target]
+    if not below or not above or 2 * above[0] + 2 > 3 * target:
+        return None
+    cut2 = below[-1] + above[0]
+    return len(below), 2, cut2, box_for(ow, cut2)
+
+
+def lowsym_world(lat, M, far):
+    d = len(M)
+    basis = [[[0] * d], [[1, 3] if d == 2 else [1, 2, 4]]]
+    return {"name": "lowsym-%s" % lat, "dim": d, "M": [list(r) for r in M], "D": 7, "basis": basis, "far": far}
+
+
 def plan_cut(ow, allowed, nshell, K, budget, rng):
     """(nshell, K, cut2, B) with the cutoff midway between shells nshell and nshell+1, shrunk until the number of
     candidate site sets TLC has to look at is within budget; None if nothing is left."""
@@ -299,12 +320,19 @@ def run(ctx):
     ctx.assumptions.append("the jump network given to makeTSclusters is the crystal's own (crys.jumpnetwork); its closure "
                            "under symmetry and reversal is checked by the spec and is a precondition of the TS clauses")
     wl = [dict(w, name=n) for n, w in worlds.CATALOGUE.items()]
-    for _ in range(10 if quick else 120):
+    for _ in range(8 if quick else 70):
         wl.append(worlds.random_world(rng, maxatoms=4))
-    for _ in range(12 if quick else 120):
+    for _ in range(10 if quick else 70):
         wl.append(layered_world(rng))
+    # no symmetry at all, cutoff of many lattice constants (pairs only): the range of lattice vectors that matters
+    wl.append(lowsym_world("hex2d", worlds.LATTICES["hex2d"], 7.1))
+    wl.append(lowsym_world("oblique", worlds.LATTICES["oblique"], 6.3))
+    if not quick:
+        wl.append(lowsym_world("bcc", worlds.LATTICES["bcc"], 5.3))
+        wl.append(lowsym_world("fcc", worlds.LATTICES["fcc"], 5.3))
+        wl.append(lowsym_world("crect", worlds.LATTICES["crect"], 8.2))
     budget = 2500 if quick else 12000            # bound on the number of candidate subsets TLC has to look at
-    sizecap = 500 if quick else 2500             # bound on the number of clusters (all four families) per case
+    sizecap = 350 if quick else 1200             # bound on the number of clusters (all four families) per case
     cases, meta = [], []
     for w in wl:
         wkey = w["name"]
@@ -333,8 +361,11 @@ def run(ctx):
                 js = rng.choice((1, 1, 2)) if len(jsh) >= 3 else 1
                 jcutoff = unit * math.sqrt((jsh[js - 1] + jsh[js]) / (2.0 * q)) / ow["D"]
             case = None
+            far = w.get("far") if trial == 0 else None
+            if far:                              # pairs only, cutoff of several lattice constants
+                excl, allowed, K = [], list(range(nspec)), 2
             while True:
-                pl = plan_cut(ow, allowed, nshell, K, budget, rng)
+                pl = far_cut(ow, far) if far else plan_cut(ow, allowed, nshell, K, budget, rng)
                 if pl is None:
                     break
                 nshell, K, cut2, B = pl
@@ -347,7 +378,7 @@ def run(ctx):
                     texp = cluster.makeTSclusters(crys, chem, jn, cexp)
                     vtexp = cluster.makeTSclusters(crys, chem, jn, vexp)
                     total = sum(len(x) for e in (cexp, vexp, texp, vtexp) for x in e)
-                    if total > sizecap and (K > 2 or nshell > 1):      # too much for TLC in this tier: come closer
+                    if total > sizecap and (K > 2 or nshell > 1) and not far:      # too much for TLC in this tier: come closer
                         if K > 2 and (nshell == 1 or rng.random() < 0.5):
                             K -= 1
                         else:
@@ -372,7 +403,7 @@ def run(ctx):
             cases.append(case)
             meta.append(("enum", key, w, {"cutoff": cutoff, "jcutoff": jcutoff, "K": K, "excl": excl, "chem": chem}))
             # equality / hash table on clusters of this world
-            if trial == 0 and (not quick or wl.index(w) % 3 == 0):
+            if trial == 0 and (not quick or wl.index(w) % 4 == 0):
                 bases = []
                 flat = [c for s in case["clusters"] for c in s]
                 for kind, src in (("plain", flat), ("vac", [c for s in case["vac"] for c in s]),
@@ -411,7 +442,8 @@ def run(ctx):
         inf = infos.get(i, {})
         fl = sorted(fails.get(i, []))
         if any(f.startswith("MACHINERY") for f in fl):
-            raise tlc.TLCError("neighbour box rejected by the spec for %s: B=%s cut2=%s" % (key, cases[i]["B"], cases[i]["cut2"]))
+            raise tlc.TLCError("model-level lemma rejected by the spec (%s) for %s: B=%s cut2=%s" % (
+                fl, key, cases[i].get("B"), cases[i].get("cut2")))
         if typ == "enum":
             ctx.case(str((cases[i]["w"], cases[i]["cut2"], cases[i]["K"], cases[i]["excl"], cases[i]["chem"])),
                      nontrivial=inf.get("maxorbit", 0) > 1 and inf.get("nclusters", 0) > len(cases[i]["w"]["basis"]))
